@@ -199,13 +199,18 @@ impl AgentRun {
             }
             "H" => {
                 let tid = u128::from_str_radix(p[2], 16).unwrap();
-                let cls = match p[1] {
+                // <kind>[@<method>]: the method of an incoming message is BINDING unless stated
+                let (kind, meth) = match p[1].split_once('@') {
+                    Some((k, m)) => (k, u16::from_str_radix(m, 16).unwrap()),
+                    None => (p[1], BINDING),
+                };
+                let cls = match kind {
                     "ok" => MessageClass::Success,
                     "err" => MessageClass::Error,
                     "req" => MessageClass::Request,
                     _ => MessageClass::Indication,
                 };
-                let mut b = Message::builder(MessageType::from_class_method(cls, BINDING), tid.into());
+                let mut b = Message::builder(MessageType::from_class_method(cls, meth), tid.into());
                 let sw = Software::new("peer").unwrap();
                 b.add_attribute(&sw).unwrap();
                 let mut signed_len = 0;
@@ -501,6 +506,12 @@ pub fn history(rng: &mut Rng, len: usize, tr: &str, timing: bool) -> String {
                 // an incoming message
                 let ti = g.tid();
                 let kind = *g.rng.pick(&["ok", "ok", "ok", "err", "req", "ind"]);
+                // sometimes with a method other than the request's (BINDING): matching is by transaction id
+                let kind = if g.rng.chance(1, 6) {
+                    format!("{}@{:x}", kind, *g.rng.pick(&[0x000u16, 0x002, 0x003, 0x004, 0x800, 0xfff]))
+                } else {
+                    kind.to_string()
+                };
                 // response signing: genuine (the agent's remote key), another key, unsigned, corrupted
                 let sign = match g.rng.below(6) {
                     0 => "n".to_string(),
